@@ -657,7 +657,7 @@ def rule_orthogonal_indexer(ctx):
 
     def ix_(args, kwargs):
         for a in args:
-            if not (isinstance(a, Kind) and a.name == 'ARR'):
+            if not isinstance(a, Kind):
                 raise Undecided('np.ix_ on %r' % (a,))
         return [Kind('IX') for _ in args]
     ext = {'canonicalize_indexer': lambda args, kw: tuple(args[0]), 'np.ix_': ix_, '_expand_slice': lambda args, kw: Kind('ARR')}
